@@ -73,14 +73,14 @@ class TypeGen:
             hi = lo + d(st.integers(0, 4))
             if chance(d, 0.5):
                 c["min"] = lo
-                if chance(d, 0.12):  # inclusive and exclusive bound together (either may be the binding one)
-                    c["exc_min"] = lo + d(st.integers(-2, 1))
+                if chance(d, 0.2):  # inclusive and exclusive bound together (either may be the binding one, or a tie)
+                    c["exc_min"] = lo + pick(d, [0, 0, -2, -1, 1])
             elif chance(d, 0.3):
                 c["exc_min"] = lo - 1
             if chance(d, 0.5):
                 c["max"] = hi
-                if chance(d, 0.12):
-                    c["exc_max"] = hi + d(st.integers(-1, 2))
+                if chance(d, 0.2):
+                    c["exc_max"] = hi + pick(d, [0, 0, -1, 1, 2])
             elif chance(d, 0.3):
                 c["exc_max"] = hi + 1
             if chance(d, 0.2):
@@ -230,6 +230,10 @@ class TypeGen:
     def _nolit_alt(self, a: dict) -> dict:
         if a["k"] == "lit":
             return {"k": "str"}
+        if a["k"] == "ann" and a["of"]["k"] in ("opt", "union"):
+            # a union nested through Annotated is not flattened by typing, and serialization refuses it with the same
+            # explicit TypeError ("... is not supported in union serialization")
+            return self._nolit_alt(a["of"]["of"] if a["of"]["k"] == "opt" else a["of"])
         if a["k"] in ("opt", "union"):
             return self.nolit(a)
         return a
@@ -259,6 +263,13 @@ class TypeGen:
         if k == "leaf":
             return self.leaf(hashable)
         if k == "opt":
+            if self.cfg["constraints"] and self.cfg.get("constraints_around_optional", True) and not hashable and chance(d, 0.2):
+                # constraints declared AROUND the Optional (they apply to the non-null alternative)
+                base = pick(d, ["int", "str", "float", "list"])
+                c = self.constraints("array" if base == "list" else base)
+                inner = {"k": "list", "sp": "List", "of": self.leaf()} if base == "list" else {"k": base}
+                if c:
+                    return {"k": "ann", "of": {"k": "opt", "of": inner}, "c": c}
             return {"k": "opt", "of": self.type(depth - 1, hashable)}
         if k == "union":
             n = d(st.integers(2, self.cfg["max_alts"]))
@@ -491,10 +502,11 @@ class TypeGen:
                          "ser_default": {"ser_default": True},
                          "ser_if": {"ser_if": pick(d, ["is_none", "falsy"])}}[form]
         if cfg["constraints"] and agg is None and chance(d, 0.12):
-            base = M.strip(f["t"], self.prog)["k"]
+            ft_ = f["t"]["of"] if f["t"]["k"] == "opt" and not f.get("none_as_undefined") else f["t"]  # also around an Optional
+            base = M.strip(ft_, self.prog)["k"]
             kind = {"int": "int", "float": "float", "str": "str", "list": "array", "vartuple": "array",
                     "map": "object"}.get(base)
-            if kind and f["t"]["k"] == base and not self.refs_stack(f["t"]):  # no merging with type-level constraints here
+            if kind and ft_["k"] == base and not self.refs_stack(f["t"]):  # no merging with type-level constraints here
                 c = self.constraints(kind)
                 if c and f.get("default") is None:
                     f["c"] = c
